@@ -19,10 +19,11 @@ import Driver.Handlers.Query
 import Driver.Handlers.MergeGraph
 import Driver.Handlers.Cache
 import Driver.Handlers.Merge
+import Driver.Handlers.Publish
 namespace Driver
 
 def handlers : List (String → List String → Option String) :=
-  [handleDates, handleSimilarity, handleMatch, handleDateParse, handleDecoder, handleDiff, handleResolve, handleWarnings, handleEqual, handleLiving, handlePages, handleHtml, handleQuery, handleMergeGraph, handleCache, handleMerge]
+  [handleDates, handleSimilarity, handleMatch, handleDateParse, handleDecoder, handleDiff, handleResolve, handleWarnings, handleEqual, handleLiving, handlePages, handleHtml, handleQuery, handleMergeGraph, handleMergeDocs, handleCache, handleMerge, handlePublish]
 
 def respond (line : String) : String :=
   match line.splitOn " " with
